@@ -46,7 +46,15 @@ def _get_uses_of(node: ast.AST, scope: ast.AST, source: str) -> Iterable[ast.Nam
     for funcdef in core.walk(scope, (ast.FunctionDef, ast.AsyncFunctionDef)):
         if node in core.walk(funcdef, type(node)):
             continue
-        if any(core.walk(funcdef.args, ast.arg(arg=name))):
+        is_declared_global = any(
+            name in declaration.names
+            for declaration in core.walk(funcdef, (ast.Global, ast.Nonlocal))
+        )
+        if any(core.walk(funcdef.args, ast.arg(arg=name))) or (
+            not is_declared_global
+            and any(core.walk(funcdef, ast.Name(ctx=ast.Store, id=name)))
+        ):
+            # The name is a variable of its own in this function, wherever it is used in it
             blacklisted_names.update(core.walk(funcdef, ast.Name))
         for child in core.walk(funcdef, ast.Name(ctx=ast.Store, id=name)):
             blacklisted_names.update(core.walk(child, ast.Name))
